@@ -57,141 +57,182 @@ def build(cfg, par):
     return mod
 
 
-def one_step(mod, solver, vs, dt, v, I):
-    init_fn, step_fn = build_init_and_step_fn(mod, voltage_solver=vs, solver=solver)
-    states, params = init_fn([], None, None, dt)
-    states["v"] = jnp.asarray(v)
-    inds = np.where(np.asarray(I) != 0.0)[0]
-    if len(inds) > 0:
-        externals = {"i": jnp.asarray(np.asarray(I)[inds])}
-        external_inds = {"i": jnp.asarray(inds)}
-    else:
-        externals, external_inds = {}, {}
-    out = step_fn(states, params, externals, external_inds, dt)
-    return np.asarray(out["v"], dtype=float)
+class Stepper:
+    """One public step function per (solver, backend); eager (C01) or jitted (C02)."""
+
+    def __init__(self, mod, jit):
+        self.mod = mod
+        self.jit = jit
+        self.cache = {}
+
+    def get(self, solver, vs):
+        key = (solver, vs)
+        if key not in self.cache:
+            init_fn, step_fn = build_init_and_step_fn(self.mod, voltage_solver=vs, solver=solver)
+            states, params = init_fn([], None, None, 0.025)
+            n = len(self.mod.nodes)
+            all_inds = jnp.arange(n)
+
+            def f(v, I, dt, eleak=None):
+                st = dict(states)
+                st["v"] = v
+                p = params
+                if eleak is not None:             # same model with other reversal potentials
+                    p = dict(params)
+                    p["Leak_eLeak"] = eleak
+                return step_fn(st, p, {"i": I}, {"i": all_inds}, dt)["v"]
+
+            self.cache[key] = jax.jit(f) if self.jit else f
+        return self.cache[key]
+
+    def step(self, solver, vs, dt, v, I, eleak=None):
+        """Returns (x, None) or (None, reason) when the code refuses the model (allowed by C01)."""
+        try:
+            f = self.get(solver, vs)
+            if eleak is None:
+                eleak = self.mod.nodes["Leak_eLeak"].to_numpy()
+            x = np.asarray(f(jnp.asarray(v, dtype=float), jnp.asarray(I, dtype=float), dt,
+                             jnp.asarray(eleak, dtype=float)), dtype=float)
+            return x, None
+        except Exception as e:
+            return None, type(e).__name__ + ": " + str(e)[:120]
 
 
-def try_step(mod, solver, vs, dt, v, I):
-    try:
-        x = one_step(mod, solver, vs, dt, v, I)
-        return x, None
-    except Exception as e:  # refusal is an allowed outcome (C01); recorded, never compared
-        return None, type(e).__name__ + ": " + str(e)[:120]
-
-
-def measure_config(cfg, opts, rng):
+def measure_c01(cfg, opts, rng):
     m = ev.Morph(cfg["parents"], cfg["ncomp"])
     par = draw_params(m, rng)
     mod = build(cfg, par)
+    S = Stepper(mod, jit=bool(opts.get("jit")))
     n = m.ncomps
     R, q, cap = ev.np_rate_matrix(m, par)
-    rec = {"id": cfg["id"], "parents": cfg["parents"], "ncomp": cfg["ncomp"], "steps": [], "c02": []}
+    rec = {"id": cfg["id"], "parents": cfg["parents"], "ncomp": cfg["ncomp"], "steps": []}
     v = par["v0"]
-    for dt in opts["dts"]:
-        A, b = ev.np_bwd_system(m, par, dt, v)
-        Ah, bh = ev.np_bwd_system(m, par, dt / 2, v)
-        cond = float(np.linalg.cond(A[:n, :n] / cap[:, None])) if n > 0 else 1.0
-        ref = np.linalg.solve(A, b)[:n]
+    plan = [("bwd_euler", dt) for dt in cfg.get("bwd_dts", opts["bwd_dts"])] \
+        + [("crank_nicolson", dt) for dt in cfg.get("cn_dts", opts["cn_dts"])] \
+        + [("fwd_euler", dt) for dt in opts["fwd_dts"]]
+    for solver, dt in plan:
+        A, b = ev.np_bwd_system(m, par, dt if solver != "crank_nicolson" else dt / 2, v)
         sols = {}
-        for solver in opts["solvers"]:
-            if solver == "fwd_euler" and dt > opts["fwd_dt_max"]:
-                continue
-            for vs in BACKENDS:
-                x, err = try_step(mod, solver, vs, dt, v, par["I"])
-                entry = {"dt": dt, "solver": solver, "vs": vs}
-                if x is None:
-                    entry["refused"] = err
-                    rec["steps"].append(entry)
-                    continue
-                if not np.all(np.isfinite(x)):
-                    entry["nonfinite"] = True
-                    rec["steps"].append(entry)
-                    continue
-                if solver == "bwd_euler":
-                    rr = ev.row_residuals(A, b, ev.np_extend(m, par, x))
-                    entry["res"] = float(rr.max())
-                    entry["err"] = float(np.max(np.abs(x - ref)))
-                    sols[vs] = x
-                elif solver == "crank_nicolson":
-                    half = 0.5 * (x + v)          # CN as 2*half - v  <=>  half solves the dt/2 system
-                    rr = ev.row_residuals(Ah, bh, ev.np_extend(m, par, half))
-                    entry["res"] = float(rr.max())
-                else:
-                    ve = ev.np_extend(m, par, v)
-                    want = v + dt * (R[:n] @ ve + q[:n]) / cap
-                    scale = np.abs(v) + dt * (np.abs(R[:n]) @ np.abs(ve) + np.abs(q[:n])) / cap
-                    entry["res"] = float(np.max(np.abs(x - want) / scale))
-                entry["scale"] = float(np.max(np.abs(x)))
-                rec["steps"].append(entry)
-        # agreement of accepting backends (bwd), tolerance scaled by the condition number
-        names = sorted(sols)
-        for i in range(len(names)):
-            for j in range(i + 1, len(names)):
-                d = float(np.max(np.abs(sols[names[i]] - sols[names[j]])))
-                rec["steps"].append({"dt": dt, "solver": "bwd_euler", "vs": names[i] + "|" + names[j],
-                                     "agree": d, "cond": cond, "scale": float(np.max(np.abs(ref)))})
-    # ---------------- C02 -----------------
-    for dt in opts["c02_dts"]:
-        A, b = ev.np_bwd_system(m, par, dt, v)
-        for vs in opts["c02_backends"]:
-            x, err = try_step(mod, "bwd_euler", vs, dt, v, par["I"])
+        for vs in (opts["fwd_backends"] if solver == "fwd_euler" else BACKENDS):
+            x, err = S.step(solver, vs, dt, v, par["I"])
+            entry = {"dt": dt, "solver": solver, "vs": vs}
+            rec["steps"].append(entry)
             if x is None:
-                rec["c02"].append({"dt": dt, "vs": vs, "refused": err})
+                entry["refused"] = err
                 continue
+            if x.shape != (n,) or not np.all(np.isfinite(x)):
+                entry["res"] = float("inf")
+                continue
+            if solver == "bwd_euler":
+                entry["res"] = float(ev.row_residuals(A, b, ev.np_extend(m, par, x)).max())
+                sols[vs] = x
+            elif solver == "crank_nicolson":
+                half = 0.5 * (x + v)          # CN as 2*half - v  <=>  half solves the dt/2 system
+                entry["res"] = float(ev.row_residuals(A, b, ev.np_extend(m, par, half)).max())
+            else:
+                ve = ev.np_extend(m, par, v)
+                want = v + dt * (R[:n] @ ve + q[:n]) / cap
+                scale = np.abs(v) + dt * (np.abs(R[:n]) @ np.abs(ve) + np.abs(q[:n])) / cap
+                entry["res"] = float(np.max(np.abs(x - want) / scale))
+        if solver == "bwd_euler" and len(sols) > 1:
+            cond = float(np.linalg.cond(A[:n, :n] / cap[:, None] if m.nbp == 0 else A))
+            names = sorted(sols)
+            for i in range(len(names)):
+                for j in range(i + 1, len(names)):
+                    d = float(np.max(np.abs(sols[names[i]] - sols[names[j]])))
+                    rec["steps"].append({"dt": dt, "solver": solver, "vs": names[i] + "|" + names[j], "agree": d,
+                                         "cond": cond, "scale": float(max(np.max(np.abs(sols[names[i]])), 1.0))})
+    # every k-th configuration: the same step through the jitted integrate() (scan path)
+    if opts.get("integrate_every") and cfg["id"] % opts["integrate_every"] == 0:
+        dt = cfg.get("bwd_dts", opts["bwd_dts"])[0]
+        mod.delete_recordings()
+        mod.record("v", verbose=False)
+        stim = np.where(par["I"] != 0)[0]
+        for i in stim:
+            mod.select(nodes=[int(i)]).stimulate(jnp.asarray([par["I"][i]] * 2), verbose=False)
+        A, b = ev.np_bwd_system(m, par, dt, v)
+        for vs in BACKENDS:
+            entry = {"dt": dt, "solver": "bwd_euler", "vs": vs, "via": "integrate"}
+            rec["steps"].append(entry)
+            try:
+                out = np.asarray(jx.integrate(mod, delta_t=dt, t_max=dt, voltage_solver=vs))
+                x = out[:, 1]
+                entry["res"] = float(ev.row_residuals(A, b, ev.np_extend(m, par, x)).max())
+                entry["col0"] = float(np.max(np.abs(out[:, 0] - v)))
+            except Exception as e:
+                entry["refused"] = type(e).__name__ + ": " + str(e)[:120]
+    return rec
+
+
+def measure_c02(cfg, opts, rng):
+    m = ev.Morph(cfg["parents"], cfg["ncomp"])
+    par = draw_params(m, rng)
+    mod = build(cfg, par)
+    S = Stepper(mod, jit=True)
+    n = m.ncomps
+    R, q, cap = ev.np_rate_matrix(m, par)
+    area = 2 * np.pi * par["r"] * par["l"]
+    v = par["v0"]
+    rec = {"id": cfg["id"], "parents": cfg["parents"], "ncomp": cfg["ncomp"], "c02": []}
+    Elo, Ehi = par["e"][par["leak"]].min(), par["e"][par["leak"]].max()
+    for vs in opts["backends"]:
+        for dt in opts["dts"]:
+            x, err = S.step("bwd_euler", vs, dt, v, par["I"])
             ent = {"dt": dt, "vs": vs}
-            # conservation: sum Cap (x - v) = dt * sum (membrane + injected) at the new voltages
-            area = 2 * np.pi * par["r"] * par["l"]
+            rec["c02"].append(ent)
+            if x is None:
+                ent["refused"] = err
+                break
+            # conservation: sum Cap (x - v) = dt * sum (membrane + injected current) at the new voltages.
+            # Error model: a backward-stable solve leaves row residuals of a few ulps of (|A||x| + |b|);
+            # the conservation defect is the sum of the compartment rows' residuals.
+            A, b = ev.np_bwd_system(m, par, dt, v)
+            xe = ev.np_extend(m, par, x)
+            rowscale = np.abs(A) @ np.abs(xe) + np.abs(b)
             memb = area * (par["em"] - par["gm"] * x) + 1e5 * par["I"]
             lhs = float(np.sum(cap * (x - v)))
             rhs = float(dt * np.sum(memb))
-            sc = float(np.sum(np.abs(cap * x)) + np.sum(np.abs(cap * v)) + dt * np.sum(np.abs(area * par["em"]) + np.abs(area * par["gm"] * x) + np.abs(1e5 * par["I"])))
-            ent["cons"] = abs(lhs - rhs) / sc
-            # maximum principle (passive, no stimulus): min(v, E) <= x <= max(v, E)
-            x0, _ = try_step(mod, "bwd_euler", vs, dt, v, np.zeros(n))
-            lo = min(v.min(), par["e"][par["leak"]].min())
-            hi = max(v.max(), par["e"][par["leak"]].max())
-            ent["overshoot"] = float(max(lo - x0.min(), x0.max() - hi, 0.0))
-            ent["range"] = float(hi - lo)
-            rec["c02"].append(ent)
-        # reciprocity + uniformity on a subset of (dt, backend)
-    for dt in opts["recip_dts"]:
-        for vs in opts["recip_backends"]:
-            x0, err = try_step(mod, "bwd_euler", vs, dt, v, np.zeros(n))
-            if x0 is None:
-                rec["c02"].append({"dt": dt, "vs": vs, "recip_refused": err})
-                continue
-            resp = np.zeros((n, n))
-            for i in range(n):
-                I = np.zeros(n)
-                I[i] = 1.0
-                xi, _ = try_step(mod, "bwd_euler", vs, dt, v, I)
-                resp[i] = xi - x0                    # resp[i][j]: change at j caused by 1 nA at i
-            asym = np.abs(resp - resp.T)
-            sc = np.maximum(np.abs(resp), np.abs(resp.T))
-            sc[sc == 0] = 1.0
-            rec["c02"].append({"dt": dt, "vs": vs, "recip": float(np.max(asym / sc)), "recip_abs": float(asym.max()),
-                               "resp_min": float(resp.min()), "pairs": n * (n - 1) // 2})
-    return rec, mod, par, m
-
-
-def uniform_check(cfg, opts, rng, mod_par=None):
-    """A uniform voltage U with every reversal at U and no stimulus stays uniform."""
-    m = ev.Morph(cfg["parents"], cfg["ncomp"])
-    par = draw_params(m, rng)
+            ent["cons"] = abs(lhs - rhs) / float(np.sum(rowscale[:n]))
+            # forward error of any backward-stable solver is bounded by cond * eps: tolerances of the
+            # statements about x itself (bounds, uniformity, reciprocity) are scaled by it
+            Aeq = A / np.abs(A).max(axis=1, keepdims=True)
+            ent["cond"] = float(np.linalg.cond(Aeq))
+            # discrete maximum principle (passive, unstimulated): min(v, E) <= x <= max(v, E)
+            x0, _ = S.step("bwd_euler", vs, dt, v, np.zeros(n))
+            lo, hi = min(v.min(), Elo), max(v.max(), Ehi)
+            ent["overshoot"] = float(max(lo - x0.min(), x0.max() - hi, 0.0)) / float(max(abs(lo), abs(hi)))
+        else:
+            for dt in (opts["recip_dts"] if vs in opts["recip_backends"] else []):
+                # reciprocity for ALL ordered pairs: response at j to a point current at i
+                amp = 1e6                           # the step is affine in I: a large amplitude keeps the
+                x0, _ = S.step("bwd_euler", vs, dt, v, np.zeros(n))      # response above round-off of |v|
+                resp = np.zeros((n, n))
+                for i in range(n):
+                    I = np.zeros(n)
+                    I[i] = amp
+                    xi, _ = S.step("bwd_euler", vs, dt, v, I)
+                    resp[i] = (xi - x0) / amp
+                asym = float(np.abs(resp - resp.T).max())
+                A, b = ev.np_bwd_system(m, par, dt, v)
+                cond = float(np.linalg.cond(A / np.abs(A).max(axis=1, keepdims=True)))
+                rec["c02"].append({"dt": dt, "vs": vs, "recip": asym / float(np.abs(resp).max()), "cond": cond,
+                                   "resp_neg": float(min(resp.min(), 0.0) / np.abs(resp).max()), "pairs": n * (n - 1) // 2})
+    # a uniform voltage U with every reversal at U and no stimulus stays uniform
     U = float(rng.uniform(-80, -40))
-    par["e"] = np.full(m.ncomps, U)
-    par["em"] = par["gm"] * U
-    par["v0"] = np.full(m.ncomps, U)
-    mod = build(cfg, par)
-    out = []
-    for dt in opts["recip_dts"]:
-        for vs in BACKENDS:
-            x, err = try_step(mod, "bwd_euler", vs, dt, par["v0"], np.zeros(m.ncomps))
+    par2 = dict(par)
+    par2["e"] = np.full(n, U)
+    par2["em"] = par["gm"] * U
+    vU = np.full(n, U)
+    for vs in opts["backends"]:
+        for dt in opts["dts"]:
+            x, err = S.step("bwd_euler", vs, dt, vU, np.zeros(n), eleak=np.where(par["leak"], U, np.nan))
             if x is None:
-                out.append({"dt": dt, "vs": vs, "refused": err})
-            else:
-                out.append({"dt": dt, "vs": vs, "unif": float(np.max(np.abs(x - U)) / abs(U))})
-    return out
+                rec["c02"].append({"dt": dt, "vs": vs, "unif_refused": err})
+                break
+            A, b = ev.np_bwd_system(m, par2, dt, vU)
+            cond = float(np.linalg.cond(A / np.abs(A).max(axis=1, keepdims=True)))
+            rec["c02"].append({"dt": dt, "vs": vs, "unif": float(np.max(np.abs(x - U)) / abs(U)), "cond": cond})
+    return rec
 
 
 def main():
@@ -201,12 +242,13 @@ def main():
     t0 = time.time()
     for k, cfg in enumerate(job["configs"]):
         rng = np.random.default_rng([opts["seed"], cfg["id"]])
-        with jax.disable_jit():
-            rec, mod, par, m = measure_config(cfg, opts, rng)
-            if opts.get("uniform"):
-                rec["uniform"] = uniform_check(cfg, opts, rng)
+        if opts["mode"] == "c01":
+            with jax.disable_jit():
+                rec = measure_c01(cfg, opts, rng)
+        else:
+            rec = measure_c02(cfg, opts, rng)
         results.append(rec)
-        if (k + 1) % 20 == 0:
+        if (k + 1) % opts.get("clear_every", 10) == 0:
             jax.clear_caches()
     json.dump({"results": results, "wall": time.time() - t0}, open(sys.argv[2], "w"))
 
